@@ -12,7 +12,8 @@ CHECKS = {
                   "TLC-enumerated token sequences replayed into extract_reuse_info / lint --json; TLC trace validation",
         text="TLC proves M |= R for every token sequence up to the bound and judges every recorded run of the real "
              "extractor (all sequences up to the replay bound in four renderings, plus seeded longer ones and "
-             "whole-file runs through `reuse lint --json` that straddle the 4 KiB window) against R.",
+             "whole-file runs through `reuse lint --json` that straddle the 4 KiB window) against R; the yes/no question "
+             "annotate asks about a text (contains_reuse_info, `annotate --skip-existing`) must have the block-free text's answer too.",
         note="Trusts TLC, the token renderer (tokens separated by one blank; values compared modulo runs of blanks) and, "
              "for sequences that are not 'clean', the tool's own tag reader on block-free text (C02's subject).",
         ref="5/C12"),
@@ -57,7 +58,7 @@ CHECKS = {
              "plus TLC-sampled projects of the Inventory and Precedence generators, is linted for real and judged by TLC "
              "for exit status, summary flag, and exact equality of every category (nothing else reported, non-covered "
              "distractor files never shown). In addition Workflow.tla (the tool as a state machine over what the project declares: annotate / download / download --all / lint / spdx / convert-dep5 with their documented effect and exit status; Monotone, ReadersReadOnly, ComplianceReachable, DownloadAllExact model-checked from every initial state) is replayed: TLC-simulated command sequences run on a real project and the abstract state observed after every command must be the one the specification allows.",
-        note="Read errors are injected through a sys.addaudithook shim (root ignores permissions); trusts TLC, the "
+        note="A share of the cases runs in a fresh interpreter whose locale is not UTF-8 (LC_ALL=C, UTF-8 mode and locale coercion off) with text outside ASCII in the files: the locale is a hidden parameter. " "Read errors are injected through a sys.addaudithook shim (root ignores permissions); trusts TLC, the "
              "materialiser and the JSON projection.",
         ref="5/C01"),
     "C13": dict(
@@ -68,7 +69,8 @@ CHECKS = {
              "subsets with directories, three working directories and path spellings) are run; TLC checks equal exit "
              "statuses, that plain and lines name exactly the JSON's offenders per category, that the JSON counters "
              "match its own lists, that --quiet is silent and that lint-file reports exactly the per-file problems of "
-             "the covered files among its arguments.",
+             "the covered files among its arguments (symbolic links to covered files are named too: a link names nothing). In addition Workflow.tla "
+             "behaviours with `lint-file F` between the modifying commands are replayed: its exit status must be the verdict on the named files (LintFileVsLint).",
         note="Text formats are parsed structurally (section / paragraph / bullet; path: message [id]) with opaque labels; "
              "the reference for all views is the same state's lint --json, whose own correctness is C01's subject.",
         ref="5/C13"),
@@ -81,7 +83,7 @@ CHECKS = {
              "per covered file and no other, unique SPDXIDs matched one-to-one by DESCRIBES, true SHA-1, exact "
              "LicenseInfoInFile / FileCopyrightText, LicenseConcluded logically equivalent to the conjunction of the "
              "file's expressions under every truth assignment, and every LicenseRef- with its text. In addition Workflow.tla behaviours (spdx interleaved with annotate / download / convert-dep5) are replayed: the File sections of every document must be exactly what lint attributes to the files at that point.",
-        note="SHA-1 values come from hashlib (environment fact); the tag-value and expression readers are written for this "
+        note="A share of the cases runs in a fresh interpreter whose locale is not UTF-8 (LC_ALL=C, UTF-8 mode and locale coercion off) with text outside ASCII in the files: the locale is a hidden parameter. " "SHA-1 values come from hashlib (environment fact); the tag-value and expression readers are written for this "
              "check; header fields are only required to be present.",
         ref="5/C18"),
     "C14": dict(
@@ -94,7 +96,8 @@ CHECKS = {
              "real code (spec -> code), and real pool runs with 1..16 workers are recorded in the workers and checked to "
              "be LintPool behaviours (code -> spec).  For every tree all runs - serial, scheduled, real pool, permuted "
              "directory listings, five root/cwd spellings, project location, PYTHONHASHSEED values - must give the same "
-             "normalised lint and SPDX output and exit status.",
+             "normalised lint and SPDX output and exit status; trees with more covered files than processors; and a tree linted, edited and "
+             "linted again by ONE process must give what a fresh interpreter gives for the edited contents (the history of the process is a hidden parameter).",
         note="Hash seeds and listing orders are sampled (seeded); pool.map semantics (fresh callable per chunk, results in "
              "input order) are transcribed in harness/schedshim.py; equality with R itself is C01's subject.",
         ref="5/C14"),
@@ -109,7 +112,7 @@ CHECKS = {
              "tagged comment block are kept in order byte for byte, the new block is contiguous, blank-line and "
              "trailing-blank changes touch the header only, BOM and first-line declaration stay first, and the line-ending "
              "convention and final newline are kept.",
-        note="Lines are matched by exact bytes (unique payloads); tag lines re-rendered inside the new header count as "
+        note="A share of the cases runs in a fresh interpreter whose locale is not UTF-8 (LC_ALL=C, UTF-8 mode and locale coercion off) with text outside ASCII in the files: the locale is a hidden parameter. " "Lines are matched by exact bytes (unique payloads); tag lines re-rendered inside the new header count as "
              "header material; one open finding (KF-C08-1, closer followed by code) is matched by a TLA+ signature.",
         ref="5/C08"),
     "C20": dict(
@@ -121,7 +124,7 @@ CHECKS = {
              "covering all stated years (all notice sets up to the bound), and judges the real builder / reader / merger "
              "on the full product of ten prefixes x six year forms x a holder grammar, on verbatim notices, and on "
              "TLC-enumerated and sampled notice sets through both the Python API and the CLI.",
-        note="Prefix texts come from the manual page; notices are tokenised by a reader written for this check; non-ASCII "
+        note="A share of the cases runs in a fresh interpreter whose locale is not UTF-8 (LC_ALL=C, UTF-8 mode and locale coercion off) with text outside ASCII in the files: the locale is a hidden parameter. " "Prefix texts come from the manual page; notices are tokenised by a reader written for this check; non-ASCII "
              "text is encoded as <U+XXXX> for TLC.",
         ref="5/C20"),
     "C07": dict(
@@ -155,8 +158,9 @@ CHECKS = {
              "initial contents x LF/CRLF/CR with seeded --multi-line / --no-replace / template flavours: after every step "
              "that changed the file TLC checks that nothing declared before was dropped and the request was added; under "
              "--merge-copyrights that all holders remain and every year stated before is still covered.",
-        note="The linter's view is taken from `reuse lint --json` and the tool's own reader (contributors); requests are concretised from small pools. .license-redirecting options are outside the histories (a sibling shadows the file by "
-             "specification).",
+        note="The linter's view is taken from `reuse lint --json` and the tool's own reader (contributors); requests are concretised from small pools. Every seventh history moves the header into a .license sibling at one step "
+             "(--force-dot-license): what the file declared must be carried over; Workflow.tla behaviours (annotate with --force-dot-license / --skip-existing "
+             "between the other commands) are replayed as well.",
         ref="5/C09"),
     "C11": dict(
         technique="Annotate.tla with failing subsets (FailedUntouched, ExitReflectsFailure) model-checked by TLC; every "
@@ -190,12 +194,12 @@ CHECKS = {
                   "exit status, termination) model-checked by TLC; every initial state replayed against a scripted network; "
                   "TLC trace validation of tree snapshots, network log and exit status",
         text="Every combination of pre-existing LICENSES/ entries, request set, per-identifier network outcome (ok / HTTP "
-             "error / connection error) and --source (quick: a seeded sample) is run for real with urlopen replaced by a stub, "
-             "from the root, a sub-directory, LICENSES/ and outside, with and without --root / Git, repeated invocations, "
+             "error / connection refused / connection reset, timeout or short read while the body is read) and --source (quick: a seeded sample) is run for real with urlopen replaced by a stub, "
+             "from the root, a sub-directory, LICENSES/, the LICENSES/ of a neighbouring checkout and outside, with and without --root / Git, a share in a C-locale interpreter with licence texts outside ASCII, repeated invocations, "
              "--all and --output; TLC checks that no existing file changes, only the prescribed paths appear, LicenseRef- "
              "needs no network, a failed transfer leaves no file, content is the complete body, later identifiers are still "
              "handled, the exit status tells failure, and lint reports no missing licence after a successful --all. In addition Workflow.tla (the tool as a state machine over what the project declares: annotate / download / download --all / lint / spdx / convert-dep5 with their documented effect and exit status; Monotone, ReadersReadOnly, ComplianceReachable, DownloadAllExact model-checked from every initial state) is replayed: TLC-simulated command sequences run on a real project and the abstract state observed after every command must be the one the specification allows.",
-        note="Network = urllib.request.urlopen stub inside the harness process; body-read failures are not scripted; an "
+        note="Network = urllib.request.urlopen replaced by a scripted stub (in the harness process, or in the fresh interpreter started through harness/stubnet_main.py); an "
              "outside sentinel directory is part of every snapshot.",
         ref="5/C19"),
     "C17": dict(
@@ -208,7 +212,7 @@ CHECKS = {
              "copyright, comments, in-file information to aggregate with) are converted for real and TLC checks that every "
              "path keeps exactly its copyright lines and expressions apart from the source's name, that REUSE.toml is "
              "written before dep5 is removed, that a failed write keeps dep5, and that the command refuses without dep5. In addition Workflow.tla (the tool as a state machine over what the project declares, convert-dep5 interleaved with annotate / download / lint; ConversionKeepsAttribution, OnlyConvertMovesGlob model-checked) is replayed on a real project with the abstract state compared after every command.",
-        note="Two open findings (KF-C17-1 '?', KF-C17-2 '*/') are matched by TLA+ signatures; the dep5 side of the language "
+        note="A share of the cases runs in a fresh interpreter whose locale is not UTF-8 (LC_ALL=C, UTF-8 mode and locale coercion off) with text outside ASCII in the files: the locale is a hidden parameter. " "Two open findings (KF-C17-1 '?', KF-C17-2 '*/') are matched by TLA+ signatures; the dep5 side of the language "
              "comparison is the Debian specification as transcribed in Dep5Tok.",
         ref="5/C17"),
     "C15": dict(
@@ -219,13 +223,14 @@ CHECKS = {
         text="All sequences of one command and (quick: a seeded sample of) two commands - thorough: sampled triples - over "
              "lint in four formats, lint-file, spdx, spdx -o, supported-licenses, --help, --version, annotate on files, a "
              "binary and a symlink leaving the project, annotate -r on the root, on directories with look-alike siblings and "
-             "on a symlinked directory, convert-dep5 and download (also --source onto an existing file) run on a tree with "
+             "on a symlinked directory, convert-dep5 and download (also --source onto an existing file) run - from the root, from a project subdirectory and from an unrelated watched directory - on a tree with "
              "an outside sentinel, an ignored file, LICENSES/, .reuse/dep5 and a read-only file; TLC checks that everything "
              "that changed (content, mode, mtime, link target) lies in the command's documented footprint and that nothing "
              "outside the project changed. Every CLI invocation of the repository's tests/test_cli_*.py is recorded by a pytest "
              "plugin (snapshots around it) and judged by the same specification.",
         note="The covered set for `annotate -r` is the tool's own lint listing before the command (C03's subject); .git/ is "
-             "excluded from snapshots; the network is a stub that always succeeds.",
+             "part of the snapshots and Git's cached stat information is made stale before every command; the network is a stub that always succeeds. "
+             "Workflow.tla behaviours are replayed as well (which command may change declarations, LICENSES/, siblings, the project-wide declaration).",
         ref="5/C15"),
     "C16": dict(
         technique="TLA+ classification of the REUSE.toml shape matrix and of further malformed-input classes into valid / "
@@ -234,15 +239,15 @@ CHECKS = {
                   "TLC trace validation of exit status, escaped exceptions and diagnostics",
         text="Every key x value-shape cell of REUSE.toml (one deviation: complete x 7 sub-commands; two deviations: quick a "
              "seeded sample, thorough all) and 18 other classes (broken / non-UTF-8 TOML and dep5, duplicate keys, nested bad "
-             "REUSE.toml, dep5 together with REUSE.toml, covered files with NULs / invalid UTF-8 / a 1 MB line / an unparseable "
+             "REUSE.toml, dep5 together with REUSE.toml, .gitmodules with an empty or non-UTF-8 path, ignored / covered files whose names are not UTF-8, several files failing in one annotate invocation, covered files with NULs / invalid UTF-8 / a 1 MB line / an unparseable "
              "expression, unreadable and vanishing files, non-UTF-8 LicenseRef text and .license, broken template) are fed "
              "to lint (3 formats), spdx, lint-file, annotate, download --all and convert-dep5; TLC checks: no exception "
              "escapes, exit status in {0,1,2}, invalid configuration gives exit 2 and a message naming the file, valid "
              "input is not rejected, an unreadable covered file is a read error or lacks information and the run completes. "
              "Every CLI invocation made by the repository's tests/test_cli_*.py is recorded and held to the exit-status "
              "discipline too.",
-        note="Exceptions are observed at the click entry point in-process and, for a sample, as tracebacks of the real "
-             "executable; read faults are injected by an audit hook; the valid/invalid/grey table is this check's reading "
+        note="Exceptions are observed at the click entry point in-process and, for a sample and for inputs whose bytes reach the terminal, in the real "
+             "executable (started through harness/realmain.py, whose sys.excepthook tags exceptions nobody handled); read faults are injected by an audit hook; the valid/invalid/grey table is this check's reading "
              "of REUSE specification 3.3.",
         ref="5/C16"),
     "C03": dict(
